@@ -3,7 +3,7 @@
    Print Assumptions.  Model: Cluster/Flat.v (generic) and Cluster/FlatQ.v
    (exact rationals, the instance run against the implementation). *)
 From Coq Require Import QArith List Bool Arith Relations.
-From LV Require Import Cluster.Flat Cluster.FlatProofs Cluster.FlatLinkage Cluster.FlatQ Cluster.FlatQProofs.
+From LV Require Import Cluster.Flat Cluster.FlatProofs Cluster.FlatLinkage Cluster.FlatTextbook Cluster.FlatQ Cluster.FlatQProofs.
 Import ListNotations.
 Local Open Scope nat_scope.
 
@@ -74,3 +74,18 @@ Proof.
       (complete_diameter Q qleb qmax (dm m) qmax_spec S (length m) thr k v x y Hk Hx Hy N)).
 Qed.
 Print Assumptions C05_complete_diameter.
+
+(* the flat clusterers ARE the textbook agglomerative procedure: for every total preorder, linkage
+   and matrix the run is a maximal sequence of steps that merge a pair of clusters of MINIMAL linkage
+   while that minimum is <= threshold ([tb_run], Cluster/FlatTextbook.v).  The only freedom the
+   relational specification leaves is which of several minimal pairs is merged (and in which
+   orientation); on a matrix without ties there is no second minimal pair.  (That two runs of the
+   specification on a tie-free matrix end in the same partition - orientation of a merge does not
+   matter - is not proved: partial.) *)
+Theorem C05_flat_is_textbook_partial :
+  forall (V : Type) (leb : V -> V -> bool) (link : list V -> V) (d : nat -> nat -> V),
+    (forall a b, leb a b = true \/ leb b a = true) ->
+    (forall a b c, leb a b = true -> leb b c = true -> leb a c = true) ->
+    forall (n : nat) (thr : V), tb_run V leb link d thr (init n) (flat leb link d n thr).
+Proof. exact flat_is_textbook. Qed.
+Print Assumptions C05_flat_is_textbook_partial.
